@@ -1,3 +1,5 @@
+import CffiVerif.Generated.InitOnceSteps
+
 /-
 Transition system of `ffi.init_once(f, tag)` for one FFI object and one tag
 (DESIGN.md Appendix A), covering both implementations:
@@ -149,5 +151,32 @@ def runSched (s : State) : List (Tid × Choice) → Option State
   | (t, ch) :: rest => match next s t ch with
     | some s' => runSched s' rest
     | none => none
+
+/-- The source statement (abstract step of `Generated/InitOnceSteps.lean`) a call at this pc executes next. -/
+def stepOf : Pc → Option Generated.InitOnceSteps.Step
+  | .start => some .lookup
+  | .readNone => some .setdefaultPending
+  | .got _ => some .fastReturn
+  | .waiting => some .acquire
+  | .holding => some .recheck
+  | .inF => some .callF
+  | .fDone _ => some .store
+  | .stored _ => some .release
+  | .returned _ => some .ret
+  | .raised => none
+
+/-- The pcs of a lone call whose `f` returns `v`, as `next` moves it (see `C26.successPath_is_next`). -/
+def successPath (v : Val) : List Pc :=
+  [.start, .readNone, .got .pending, .waiting, .holding, .inF, .fDone v, .stored v, .returned v]
+
+/-- The model's control flow as a list of source steps. -/
+def modelSteps : List Generated.InitOnceSteps.Step := (successPath 0).filterMap stepOf
+
+/-- pcs visited by call 0 when it is the only one stepping and `f` returns 0 -/
+def visit : State → Nat → List Pc
+  | s, 0 => [s.pc 0]
+  | s, n + 1 => match next s 0 (.ret 0) with
+    | some s' => s.pc 0 :: visit s' n
+    | none => [s.pc 0]
 
 end CffiVerif.InitOnce
